@@ -308,3 +308,20 @@ Proof.
   split; [|apply K; exact B]. eapply Forall_impl; [|exact A]. intros e. apply K.
 Qed.
 End Below.
+
+(* TaskInvH over whole runs: any number of steps, any faults, every answer
+   from any version of the history (stale answers included) *)
+Lemma hist_runs : forall c H, cfg_ok c -> history_ok H -> forall ss d,
+  TaskInvH c H d -> runs_sat (node_ans true H) c ss d ->
+  Forall (TaskInvH c H) (run_dbs c ss d) /\ TaskInvH c H (run_end c ss d).
+Proof.
+  intros c H Hc HH ss. induction ss as [|s ss IH]; intros d Hi Hs; [split; [constructor|exact Hi]|].
+  destruct Hs as [Ht Hs]. destruct Hi as (g & Hpv & Hw & Hon).
+  destruct (hist_all c H Hc HH g d s Hpv Hw Hon Ht) as [A B].
+  destruct (IH _ B Hs) as [C D]. split.
+  - cbn [run_dbs]. apply Forall_app. split; [|exact C].
+    apply Forall_forall. intros x Hx. apply in_map_iff in Hx. destruct Hx as (e & <- & He).
+    rewrite Forall_forall in A. apply (A e He).
+  - unfold run_end in *. cbn [run_steps]. fold (step c s d).
+    destruct (run_steps repaired c ss (r_db (step c s d))) as [d' os] eqn:E. cbn [fst] in *. exact D.
+Qed.
